@@ -132,16 +132,19 @@ class MinPathCover(pathmodel.AbstractPathModelDAG):
             utils.logger.error(f"cover_type must be either 'node' or 'edge', not {self.cover_type}")
             raise ValueError(f"cover_type must be either 'node' or 'edge', not {self.cover_type}")
 
-        self.G = stdag.stDAG(self.G_internal, additional_starts=additional_starts_internal, additional_ends=additional_ends_internal)
+        # We build the stDAG only to validate the input (string nodes, acyclicity, additional starts/ends);
+        # the k-models created in solve() augment the graph themselves, so we must pass them the un-augmented graph.
+        stdag.stDAG(self.G_internal, additional_starts=additional_starts_internal, additional_ends=additional_ends_internal)
+        self.G = self.G_internal
         self.subpath_constraints = subpath_constraints_internal
-        self.edges_to_ignore = self.G.source_sink_edges.union(edges_to_ignore_internal)
+        self.edges_to_ignore = edges_to_ignore_internal
 
         self.subpath_constraints_coverage = subpath_constraints_coverage
         self.subpath_constraints_coverage_length = subpath_constraints_coverage_length
         self.length_attr = length_attr
         
-        self.additional_starts = additional_starts
-        self.additional_ends = additional_ends
+        self.additional_starts = additional_starts_internal
+        self.additional_ends = additional_ends_internal
 
         self._solution = None
         self._lowerbound_k = None
@@ -183,7 +186,11 @@ class MinPathCover(pathmodel.AbstractPathModelDAG):
             model.solve()
 
             if model.is_solved():
-                self._solution = model.get_solution()
+                self._solution = dict(model.get_solution())
+                if self.cover_type == "node":
+                    # The k-model worked on the node-expanded graph: convert its paths to paths in the original graph.
+                    self._solution["_paths_internal"] = self._solution["paths"]
+                    self._solution["paths"] = self.G_internal.get_condensed_paths(self._solution["paths"])
                 self.set_solved()
                 self.solve_statistics = model.solve_statistics
                 self.solve_statistics["mpc_solve_time"] = time.perf_counter() - self.solve_time_start
@@ -231,7 +238,7 @@ class MinPathCover(pathmodel.AbstractPathModelDAG):
     def get_lowerbound_k(self):
 
         if self._lowerbound_k is None:
-            stG = stdag.stDAG(self.G)
-            self._lowerbound_k = stG.get_width(edges_to_ignore=self.edges_to_ignore)
+            stG = stdag.stDAG(self.G, additional_starts=self.additional_starts, additional_ends=self.additional_ends)
+            self._lowerbound_k = stG.get_width(edges_to_ignore=stG.source_sink_edges.union(self.edges_to_ignore))
 
         return self._lowerbound_k
